@@ -1,3 +1,4 @@
+import os
 """C29 - every collective algorithm computes the MPI result.
 
 Proof (Coq, Smpi/CollSched.v + CollSpec.v): a collective is a data-oblivious schedule of Copy/Reduce steps on cells;
@@ -322,7 +323,10 @@ def build_jobs(ctx, entries):
                 layout = "blk" if rng.random() < 0.3 else "rr"
                 jobs.append(Job(coll, algo, np, cases + extra, layout))
         else:
-            for np in range(1, MAXNP + 1):
+            # thorough: 13 communicator sizes out of 1..17 (all powers of two, primes, 6, 9, 12) keep the tier around 20-25
+            # minutes on 16 cores; VERIF_C29_FULL=1 runs every size 1..17 and the second host layout at every size >= 4
+            full = os.environ.get("VERIF_C29_FULL") == "1"
+            for np in (range(1, MAXNP + 1) if full else [1, 2, 3, 4, 5, 6, 7, 8, 9, 12, 13, 16, 17]):
                 # all roots x counts {0,1,np+1}; every count at three roots
                 some = sorted(set([0, np - 1, rng.randrange(np)]))
                 cases = [c for c in cases_for(kinds, np, list(range(np))) if c[2] in (0, 1, np + 1) or c[1] in some]
@@ -336,7 +340,7 @@ def build_jobs(ctx, entries):
                                     extra.append((k, root, c, -1 - code))
                 jobs.append(Job(coll, algo, np, cases + extra, "rr"))
                 # a second host layout (4 consecutive ranks per host) for a slice of the grid: SMP-aware algorithms
-                if np >= 4:
+                if np >= 4 and (full or np in (4, 8, 13, 16)):
                     sl = cases_for(kinds, np, sorted(set([0, rng.randrange(np)])))
                     jobs.append(Job(coll, algo, np, sl, "blk"))
     return jobs
